@@ -29,7 +29,7 @@ for pid in ALL:
         'replay_cmd_template': './check %s --replay {path}' % pid,
         'engine': 'lean-model+correspondence',
         'level_claimed': {'category': 'proof', 'text': TEXT.get(pid, 'Lean 4 theorems about the hand-written model (%s), tied to /repo by a differential correspondence run on every check' % ', '.join(t.rpartition('::')[2] for t in p.theorems)), 'design_ref': 'DESIGN.md §5 ' + pid},
-        'level_note': NOTE.get(pid, 'Trusted: Lean kernel; axioms propext, Classical.choice, Quot.sound only; hand-written model lean/ADModel tied to the code (a) by definitions regenerated from the Python source on every run and proved equal to the model (harness/py2lean.py, lean/ADGen: decision-logic fragments only, atoms trusted) and (b) by sampled correspondence (harness/); hook ASTRODENDRO_VERIF=1; NumPy primitives and IEEE rounding outside the exact dyadic domain are modelled, not verified.'),
+        'level_note': NOTE.get(pid, 'Trusted: Lean kernel; axioms propext, Classical.choice, Quot.sound only; hand-written model lean/ADModel tied to the code (a) by definitions regenerated from the Python source on every run and proved equal to the model (harness/py2lean.py for scalar decision logic, harness/py2heap.py for the object-level statements of the cached queries and of prune; lean/ADGen; atoms and the attribute view trusted) and (b) by sampled correspondence (harness/); hook ASTRODENDRO_VERIF=1; NumPy primitives and IEEE rounding outside the exact dyadic domain are modelled, not verified.'),
         'technique': 'machine-checked proof in Lean 4 about a hand-written model; model tied to the code by a translator (definitions regenerated from the source on every run, equivalence theorems re-checked) and by a differential correspondence check of the model against the implementation',
     })
 m = {
@@ -43,7 +43,7 @@ m = {
         'add_only': True,
     },
     'engines': [{'name': 'lean-model+correspondence', 'path': 'check', 'serves_properties': [c['property_id'] for c in checks],
-                 'kind_free_text': 'Lean 4 model + theorems (lean/), definitions generated from the Python source by harness/py2lean.py with equivalence theorems (lean/ADGen), compiled line-protocol driver (lean/Driver.lean), Python harness running the real code in-process (harness/)'}],
+                 'kind_free_text': 'Lean 4 model + theorems (lean/), definitions generated from the Python source by harness/py2lean.py and harness/py2heap.py with equivalence theorems (lean/ADGen), compiled line-protocol driver (lean/Driver.lean), Python harness running the real code in-process (harness/)'}],
     'checks': checks,
     'not_applicable': na,
     'notes': 'See DESIGN.md. Exit 2 = infrastructure error (never a verdict). Known findings and fixed defects: known_findings.json. '
